@@ -3,6 +3,20 @@
 AEAD = "ideal (symbolic) AEAD: only honest ciphertexts open, under exactly their key/salt/nonce (DESIGN §3)"
 
 PROPS = {
+    "C01": {
+        "gen_keys": ["bytesForKeyFinding", "sdk cipher"],
+        "trusted_base": [AEAD, "container/list MoveToFront semantics incl. its e.list guard (modelled by generation numbers)",
+                         "SDK shadowsocks.Unpack succeeds exactly when the symbolic unpack does (tested by the correspondence through the real authenticator)"],
+        "assumptions": ["client salts are ordinary bytes; an honest client sends a complete first chunk (>= 50 bytes) before waiting"],
+        "explanation": "soundness, completeness, invalid-input, no-panic and any-interleaving theorems over all key lists, IPs, histories and opening byte strings (ideal AEAD); correspondence: real NewShadowsocksStreamAuthenticator on generated histories, comparing status, attributed ID and list order after every operation",
+    },
+    "C08": {
+        "gen_keys": ["minSaltEntropy", "serverSaltMarkLen", "sdk cipher"],
+        "corr_module": "C01",
+        "trusted_base": [AEAD, "HMAC-SHA1 mark idealised as an unforgeable token of (secret, prefix); crypto/rand never repeats a prefix"],
+        "assumptions": ["pairwise freshness of salts reduces to the RNG not repeating (server_salt_injective); not proved as a probability"],
+        "explanation": "round-trip, injectivity, marked-iff-salt>=20 (recomputed from Gen) and reflected-refused-even-with-cache-off theorems; correspondence: real authenticator with real server-issued salts reflected under the same / other keys, truncated or padded; 4 x 200 real response streams checked for distinct, recognised salts",
+    },
     "C05": {
         "gen_keys": ["private_net", "RequirePublicIP", "CIDR"],
         "trusted_base": ["Go stdlib net.IP predicates (IsGlobalUnicast etc.), ParseIP, IPNet.Contains are modelled in IPClass.v and validated on every block boundary by the correspondence",
